@@ -27,7 +27,7 @@ RULE = (
     "random pool with NULLs interleaved). Non-trivial = at least one non-NULL value was written and compared after read-back; "
     "distinct = distinct (type, path, values)."
 )
-REQUIRED = ["cmp_value", "cmp_pytype", "cmp_exactly_once", "cmp_null", "cmp_bystander", "cmp_dict", "cmp_pandas"]
+REQUIRED = ["cmp_value", "cmp_pytype", "cmp_exactly_once", "cmp_null", "cmp_bystander", "cmp_dict", "cmp_pandas", "cmp_mixed_fetch"]
 ASSUMPTIONS = [
     "domains: INT family = int64; NUMBER(p,s) = p digits; FLOAT family = finite doubles (no negative zero through decimal "
     "literals); timestamps = microsecond resolution within datetime's range; VARCHAR = unicode without U+0000; VARIANT values "
@@ -456,6 +456,18 @@ def run_case(case: dict, env: core.Env) -> None:
         drows = dc.execute(f"SELECT ID, V FROM {target} ORDER BY ID").fetchall()
         if [(d["ID"], d["V"]) for d in drows] != [tuple(g) for g in got] and not any(isinstance(g[1], float) and math.isnan(g[1]) for g in got):
             env.witness(f"C01/dict-cursor-differs/{cell}", f"{drows[:3]} vs {got[:3]}")
+        # every written row exactly once however the result is drained: one row, a page, then the rest
+        env.count("cmp_mixed_fetch")
+        for cls in (None, core.DictCursor):
+            mc = conn.cursor(cls) if cls else conn.cursor()
+            mc.execute(f"SELECT ID, V FROM {target} ORDER BY ID")
+            first = mc.fetchone()
+            drained = ([first] if first is not None else []) + list(mc.fetchmany(2)) + list(mc.fetchall())
+            ids = [(d["ID"] if cls else d[0]) for d in drained]
+            if ids != [g[0] for g in got]:
+                env.witness(f"C01/rows-lost-or-duplicated/mixed-fetch/{'dict' if cls else 'tuple'}-cursor",
+                            f"fetchone+fetchmany(2)+fetchall over {len(got)} rows returned ids {ids}")
+                break
         env.count("cmp_pandas")
         try:
             pdf = conn.cursor().execute(f"SELECT ID, V FROM {target} ORDER BY ID").fetch_pandas_all()
